@@ -1,283 +1,5 @@
-(* Collection.Pull with an equivalence, as repaired (Cmp/CollEquiv.v): for every history of one
-   evolving collection, every read option and every comparer, a change is delivered exactly when its
-   new value is NOT equivalent to the value the subscriber holds for that id (the new value of the
-   last change delivered for it, initially the seed); the code before the repair (old against new of
-   each change) does the same only for comparers that are equivalence relations, and is refuted for
-   tolerances (JudgeProofs.drift_witness). *)
-From SC Require Import Base.Prelude Resource.Impl Resource.Pull Cmp.CollEquiv.
-
-Set Implicit Arguments.
-
-Section Proofs.
-  Variable M : Type.
-  Variable rmask : Type.
-  Variable r_filter : rmask -> M -> M.
-
-  Notation heldmap := (heldmap M).
-  Notation view := (view M).
-
-  (* ---- the Go map ---- *)
-  Lemma hget_hset_same id v (h : heldmap) : hget id (hset id v h) = Some v.
-  Proof.
-    induction h as [|[k x] r IH]; cbn [hset hget].
-    - rewrite String.eqb_refl. reflexivity.
-    - destruct (String.eqb k id) eqn:E; cbn [hget]; rewrite ?String.eqb_refl, ?E; auto.
-  Qed.
-
-  Lemma hget_hset_other q id v (h : heldmap) : String.eqb q id = false -> hget q (hset id v h) = hget q h.
-  Proof.
-    intros N. induction h as [|[k x] r IH]; cbn [hset hget].
-    - rewrite String.eqb_sym, N. reflexivity.
-    - destruct (String.eqb k id) eqn:E; cbn [hget].
-      + apply String.eqb_eq in E. subst k. rewrite (String.eqb_sym id q), N. reflexivity.
-      + destruct (String.eqb k q); auto.
-  Qed.
-
-  Lemma hget_hdel_same id (h : heldmap) : hget id (hdel id h) = None.
-  Proof.
-    induction h as [|[k x] r IH]; cbn [hdel hget]; [reflexivity|].
-    destruct (String.eqb k id) eqn:E; cbn [hget]; rewrite ?E; auto.
-  Qed.
-
-  Lemma hget_hdel_other q id (h : heldmap) : String.eqb q id = false -> hget q (hdel id h) = hget q h.
-  Proof.
-    intros N. induction h as [|[k x] r IH]; cbn [hdel hget]; [reflexivity|].
-    destruct (String.eqb k id) eqn:E; cbn [hget].
-    - apply String.eqb_eq in E. subst k. rewrite (String.eqb_sym id q), N. exact IH.
-    - destruct (String.eqb k q); auto.
-  Qed.
-
-  (* ---- the loop is include+filter followed by the equivalence step ---- *)
-  Lemma c_forward_held_split : forall equiv (ro : ropts M rmask) evs h,
-    c_forward_held r_filter equiv ro h evs =
-    match equiv with
-    | None => offered r_filter ro evs
-    | Some cmp => held_filter cmp h (offered r_filter ro evs)
-    end.
-  Proof.
-    intros equiv ro evs. induction evs as [|e r IH]; intros h; cbn [c_forward_held offered flat_map].
-    - destruct equiv; reflexivity.
-    - fold (offered r_filter ro r).
-      destruct (include_gen false false (ro_include ro) (of_event e)) as [c|]; cbn [app].
-      + destruct equiv as [cmp|].
-        * cbn [held_filter]. destruct (held_step cmp h (cc_filter r_filter ro c)) as [send h'].
-          rewrite (IH h'). reflexivity.
-        * rewrite (IH h). reflexivity.
-      + apply IH.
-  Qed.
-
-  (* without an equivalence nothing changed: the loop is the one of Resource/Pull.v *)
-  Theorem c_forward_held_none : forall (ro : ropts M rmask) evs h,
-    c_forward_held r_filter None ro h evs = c_forward_gen r_filter None false false ro evs.
-  Proof.
-    intros ro evs h. induction evs as [|e r IH]; cbn [c_forward_held c_forward_gen]; [reflexivity|].
-    destruct (include_gen false false (ro_include ro) (of_event e)); rewrite IH; reflexivity.
-  Qed.
-
-  (* the code before the repair on the offered changes *)
-  Lemma c_forward_gen_split : forall cmp (ro : ropts M rmask) evs,
-    c_forward_gen r_filter (Some cmp) false false ro evs = v0_filter cmp (offered r_filter ro evs).
-  Proof.
-    intros cmp ro evs. induction evs as [|e r IH]; cbn [c_forward_gen offered flat_map]; [reflexivity|].
-    fold (offered r_filter ro r).
-    destruct (include_gen false false (ro_include ro) (of_event e)) as [c|]; cbn [app v0_filter]; rewrite IH; reflexivity.
-  Qed.
-
-  (* ---- the held map is the subscriber's view ---- *)
-  (* where the map has an entry it is the held value; where it has none, nothing was sent and the
-     subscriber is taken to know the collection as it is *)
-  Definition held_inv (h : heldmap) (w cur : view) : Prop :=
-    forall id, match hget id h with Some b => b = w id | None => w id = cur id end.
-
-  Lemma vupd_same id v (w : view) : vupd id v w id = v.
-  Proof. unfold vupd. rewrite String.eqb_refl. reflexivity. Qed.
-  Lemma vupd_other q id v (w : view) : String.eqb q id = false -> vupd id v w q = w q.
-  Proof. intros N. unfold vupd. rewrite N. reflexivity. Qed.
-
-  Theorem held_is_ideal : forall cmp cs h w cur,
-    held_inv h w cur -> chained_from cur cs -> held_filter cmp h cs = ideal_filter cmp w cs.
-  Proof.
-    intros cmp cs. induction cs as [|c r IH]; intros h w cur I C; [reflexivity|].
-    destruct C as [Hold C]. cbn [held_filter ideal_filter]. unfold held_step.
-    assert (B : match hget (cc_id c) h with Some b => b | None => cc_old c end = w (cc_id c)).
-    { specialize (I (cc_id c)). destruct (hget (cc_id c) h); [exact I|]. rewrite Hold. symmetry. exact I. }
-    rewrite B. destruct (cmp (w (cc_id c)) (cc_new c)) eqn:E.
-    - apply (IH _ w (vupd (cc_id c) (cc_new c) cur)); [|exact C].
-      intros k. destruct (String.eqb k (cc_id c)) eqn:K.
-      + apply String.eqb_eq in K. subst k. rewrite hget_hset_same. reflexivity.
-      + rewrite hget_hset_other by exact K. rewrite vupd_other by exact K. apply I.
-    - f_equal. apply (IH _ (vupd (cc_id c) (cc_new c) w) (vupd (cc_id c) (cc_new c) cur)); [|exact C].
-      intros k. destruct (String.eqb k (cc_id c)) eqn:K.
-      + apply String.eqb_eq in K. subst k. rewrite !vupd_same.
-        destruct (cc_new c) as [v|]; [rewrite hget_hset_same|rewrite hget_hdel_same]; reflexivity.
-      + rewrite !vupd_other by exact K.
-        destruct (cc_new c) as [v|]; [rewrite hget_hset_other by exact K|rewrite hget_hdel_other by exact K]; apply I.
-  Qed.
-
-  (* ---- "delivered iff not equivalent to what the subscriber holds", one change at a time ---- *)
-  Lemma holds_after_cons (w : view) c cs : holds_after w (c :: cs) = holds_after (vupd (cc_id c) (cc_new c) w) cs.
-  Proof. reflexivity. Qed.
-
-  Theorem ideal_last_delivered : forall cmp cs (w : view) (c : cchange M),
-    ideal_filter cmp w (cs ++ [c]) =
-    ideal_filter cmp w cs ++
-    (if cmp (holds_after w (ideal_filter cmp w cs) (cc_id c)) (cc_new c) then [] else [c]).
-  Proof.
-    intros cmp cs. induction cs as [|c0 r IH]; intros w c; cbn [app ideal_filter].
-    - unfold holds_after. cbn [fold_left]. destruct (cmp (w (cc_id c)) (cc_new c)); reflexivity.
-    - destruct (cmp (w (cc_id c0)) (cc_new c0)).
-      + apply IH.
-      + rewrite holds_after_cons. cbn [app]. f_equal. apply IH.
-  Qed.
-
-  (* ---- include and filter keep the history chained ---- *)
-  Lemma chained_from_ext : forall cs (cur cur' : view),
-    (forall k, cur k = cur' k) -> chained_from cur cs -> chained_from cur' cs.
-  Proof.
-    induction cs as [|c r IH]; intros cur cur' X C; [exact I|].
-    destruct C as [Hold C]. split; [rewrite <- X; exact Hold|].
-    apply (IH (vupd (cc_id c) (cc_new c) cur)); [|exact C].
-    intros k. unfold vupd. destruct (String.eqb k (cc_id c)); auto.
-  Qed.
-
-  Lemma seen_vupd (ro : ropts M rmask) (cur : view) id v k :
-    seen r_filter ro (vupd id v cur) k = vupd id (seen r_filter ro (vupd id v cur) id) (seen r_filter ro cur) k.
-  Proof.
-    unfold vupd at 2. destruct (String.eqb k id) eqn:K.
-    - apply String.eqb_eq in K. subst k. reflexivity.
-    - unfold seen. rewrite vupd_other by exact K. reflexivity.
-  Qed.
-
-  Theorem offered_chained : forall (ro : ropts M rmask) evs (cur : view),
-    ev_chained_from cur evs -> chained_from (seen r_filter ro cur) (offered r_filter ro evs).
-  Proof.
-    intros ro evs. induction evs as [|e r IH]; intros cur C; [exact I|].
-    destruct C as [Hold C]. specialize (IH _ C).
-    cbn [offered flat_map]. fold (offered r_filter ro r).
-    set (cur' := vupd (ce_id e) (ce_new e) cur) in *.
-    assert (S' : forall k, seen r_filter ro cur' k =
-                           vupd (ce_id e) (seen r_filter ro cur' (ce_id e)) (seen r_filter ro cur) k)
-      by (intros k; apply seen_vupd).
-    assert (Sold : seen r_filter ro cur (ce_id e) =
-                   match ce_old e with
-                   | None => None
-                   | Some v => if match ro_include ro with Some f => f (ce_id e) (Some v) | None => true end
-                               then Some (filt r_filter ro v) else None
-                   end) by (unfold seen; rewrite <- Hold; reflexivity).
-    assert (Snew : seen r_filter ro cur' (ce_id e) =
-                   match ce_new e with
-                   | None => None
-                   | Some v => if match ro_include ro with Some f => f (ce_id e) (Some v) | None => true end
-                               then Some (filt r_filter ro v) else None
-                   end) by (unfold seen, cur'; rewrite vupd_same; reflexivity).
-    unfold include_gen, of_event. cbn [cc_id cc_old cc_new cc_time cc_seed cc_kind].
-    destruct (ro_include ro) as [f|].
-    - cbn [orb].
-      destruct (ce_old e) as [vo|], (ce_new e) as [vn|]; cbn [andb];
-        try destruct (f (ce_id e) (Some vo)) eqn:Fo; try destruct (f (ce_id e) (Some vn)) eqn:Fn;
-        cbn [Bool.eqb app cc_filter cc_id cc_old cc_new option_map chained_from];
-        try (split; [rewrite Sold; reflexivity|]);
-        try (eapply chained_from_ext; [|exact IH]; intros k; rewrite S', Snew; reflexivity);
-        (* nothing offered: the seen collection did not change *)
-        (eapply chained_from_ext; [|exact IH]; intros k; rewrite S', Snew;
-         unfold vupd; destruct (String.eqb k (ce_id e)) eqn:K; [|reflexivity];
-         apply String.eqb_eq in K; subst k; rewrite Sold; reflexivity).
-    - cbn [app cc_filter cc_id cc_old cc_new option_map chained_from]. split.
-      + rewrite Sold. destruct (ce_old e); reflexivity.
-      + eapply chained_from_ext; [|exact IH]. intros k. rewrite S', Snew. destruct (ce_new e); reflexivity.
-  Qed.
-
-  (* ---- headline: the repaired loop on any history of one collection ---- *)
-  Theorem coll_pull_held_exact : forall cmp (ro : ropts M rmask) evs h (w cur : view),
-    held_inv h w (seen r_filter ro cur) -> ev_chained_from cur evs ->
-    c_forward_held r_filter (Some cmp) ro h evs = ideal_filter cmp w (offered r_filter ro evs).
-  Proof.
-    intros cmp ro evs h w cur I C. rewrite c_forward_held_split.
-    apply (held_is_ideal cmp _ I). apply offered_chained. exact C.
-  Qed.
-
-  (* a subscriber that asked for updates only holds nothing: it is taken to know the collection as it
-     was when it subscribed *)
-  Corollary coll_pull_held_updates_only : forall cmp (ro : ropts M rmask) evs (cur : view),
-    ev_chained_from cur evs ->
-    c_forward_held r_filter (Some cmp) ro [] evs =
-    ideal_filter cmp (seen r_filter ro cur) (offered r_filter ro evs).
-  Proof. intros cmp ro evs cur C. apply coll_pull_held_exact with (cur := cur); [|exact C]. intros id. reflexivity. Qed.
-
-  (* ---- the held map after the seed loop ---- *)
-  Lemma held_of_seeds_inv : forall (sd : list (cchange M)) (cur : view),
-    (forall k, holds_after (fun _ => None) sd k = None -> cur k = None) ->
-    held_inv (held_of_seeds sd) (holds_after (fun _ => None) sd) cur.
-  Proof.
-    intros sd cur Hc.
-    assert (G : forall (l : list (cchange M)) (h : heldmap) (w : view),
-              (forall k, match hget k h with Some b => b = w k | None => w k = None end) ->
-              forall k, match hget k (fold_left (fun h c => hset (cc_id c) (cc_new c) h) l h) with
-                        | Some b => b = holds_after w l k
-                        | None => holds_after w l k = None
-                        end).
-    { induction l as [|c r IH]; intros h w Hw k; [apply Hw|].
-      cbn [fold_left]. rewrite holds_after_cons. apply IH. intros q.
-      destruct (String.eqb q (cc_id c)) eqn:Q.
-      - apply String.eqb_eq in Q. subst q. rewrite hget_hset_same, vupd_same. reflexivity.
-      - rewrite hget_hset_other by exact Q. rewrite vupd_other by exact Q. apply Hw. }
-    intros id. specialize (G sd [] (fun _ => None) (fun _ => eq_refl) id). unfold held_of_seeds.
-    destruct (hget id _); [exact G|]. rewrite G. symmetry. apply Hc. exact G.
-  Qed.
-
-  (* seeded subscriber: whatever the seed showed for an id is what it holds; the seed shows all that
-     the reader sees of the collection *)
-  Theorem coll_pull_held_seeded : forall cmp (ro : ropts M rmask) (sd : list (cchange M)) evs (cur : view),
-    (forall k, holds_after (fun _ => None) sd k = None -> seen r_filter ro cur k = None) ->
-    ev_chained_from cur evs ->
-    c_forward_held r_filter (Some cmp) ro (held_of_seeds sd) evs =
-    ideal_filter cmp (holds_after (fun _ => None) sd) (offered r_filter ro evs).
-  Proof.
-    intros cmp ro sd evs cur Hs C. apply coll_pull_held_exact with (cur := cur); [|exact C].
-    apply held_of_seeds_inv. exact Hs.
-  Qed.
-
-  (* ---- the code before the repair is right exactly for equivalence RELATIONS ---- *)
-  Section EquivalenceRelation.
-    Variable cmp : option M -> option M -> bool.
-    Hypothesis cmp_refl : forall a, cmp a a = true.
-    Hypothesis cmp_sym : forall a b, cmp a b = cmp b a.
-    Hypothesis cmp_trans : forall a b c, cmp a b = true -> cmp b c = true -> cmp a c = true.
-
-    Lemma cmp_congr a b c : cmp a b = true -> cmp a c = cmp b c.
-    Proof.
-      intros H. destruct (cmp b c) eqn:E.
-      - exact (cmp_trans H E).
-      - destruct (cmp a c) eqn:F; [|reflexivity].
-        rewrite cmp_sym in H. rewrite (cmp_trans H F) in E. discriminate.
-    Qed.
-
-    Theorem v0_is_ideal_for_equivalence_relations : forall cs (w cur : view),
-      (forall id, cmp (w id) (cur id) = true) -> chained_from cur cs ->
-      v0_filter cmp cs = ideal_filter cmp w cs.
-    Proof.
-      induction cs as [|c r IH]; intros w cur I C; [reflexivity|].
-      destruct C as [Hold C]. cbn [v0_filter ideal_filter].
-      rewrite Hold. rewrite <- (cmp_congr (cc_new c) (I (cc_id c))).
-      destruct (cmp (w (cc_id c)) (cc_new c)) eqn:E.
-      - apply (IH w (vupd (cc_id c) (cc_new c) cur)); [|exact C].
-        intros k. unfold vupd. destruct (String.eqb k (cc_id c)) eqn:K; [|apply I].
-        apply String.eqb_eq in K. subst k. exact E.
-      - f_equal. apply (IH _ (vupd (cc_id c) (cc_new c) cur)); [|exact C].
-        intros k. unfold vupd. destruct (String.eqb k (cc_id c)); [apply cmp_refl|apply I].
-    Qed.
-
-    (* so for WithNoDuplicates, cmp.Equal() and any projection the models of the other properties that
-       use c_forward_gen describe the repaired code as well *)
-    Theorem c_forward_gen_is_held_for_equivalence_relations : forall (ro : ropts M rmask) evs h (w cur : view),
-      held_inv h w (seen r_filter ro cur) ->
-      (forall id, cmp (w id) (seen r_filter ro cur id) = true) ->     (* e.g. right after the seed: equal *)
-      ev_chained_from cur evs ->
-      c_forward_gen r_filter (Some cmp) false false ro evs = c_forward_held r_filter (Some cmp) ro h evs.
-    Proof.
-      intros ro evs h w cur I E C. rewrite c_forward_gen_split, (@coll_pull_held_exact cmp ro evs h w cur I C).
-      apply (@v0_is_ideal_for_equivalence_relations _ w (seen r_filter ro cur) E).
-      apply offered_chained. exact C.
-    Qed.
-  End EquivalenceRelation.
-End Proofs.
+(* The theorems about Collection.Pull's held map (held_is_ideal, coll_pull_held_exact / _seeded /
+   _updates_only, ideal_last_delivered, offered_chained, v0_is_ideal_for_equivalence_relations,
+   c_forward_gen_is_held_for_equivalence_relations, ...) now live in Resource/HeldProofs.v together
+   with the model (Resource/Pull.v); re-exported here under the same names. *)
+From SC Require Export Resource.HeldProofs.
